@@ -43,7 +43,7 @@ LEVEL_NOTE = "Trusts the per-class dict model. Search, not proof."
 TECHNIQUE = "model-based stateful PBT (exhaustive small-scope + Hypothesis op-lists) against a per-class dict model"
 
 ARGS = [-1, -2, 0, 1, 2, "a", "b", [1, 2], [2, 1], "<L1>", "<L2>"]   # <L1>/<L2>: two UniverseLaws objects made per case
-OPS = ["new", "new", "new", "add", "drop", "check", "clear"]
+OPS = ["new", "new", "new", "add", "drop", "check", "clear"] * 3 + ["many"]   # many: 260 distinct new keys of one class at once
 
 
 def budget(tier):
@@ -307,6 +307,28 @@ def check_case(case):
                 special = True
                 classes.add("nested-dict-order-permuted-pair")
             seen_keys.add(sk)
+        elif op == "many":
+            # 260 further mappings of one class in one go (integer arguments 1000 + 3n: distinct keys also under E's hashfunc? no -
+            # E keys on the argument mod 3, so E gets at most one new mapping; every other class gets 260)
+            c = CL[ci % NC]
+            touched.add(c)
+            for n in range(260):
+                aa = 1000 + n
+                k = key(c, aa, {})
+                n0 = ninit[0]
+                try:
+                    o = c(aa, **kx(c, {}))
+                except Exception as e:  # noqa
+                    raise Violation("construct-raised", f"{where}: argument {aa}: {e!r}")
+                ser, typ = getattr(o, "serial", None), type(o)
+                del o
+                if k in model[c]:
+                    require(ser == model[c][k][0] and ninit[0] == n0, "live-key-returned-other-instance", f"{where}: argument {aa}")
+                else:
+                    require(typ is c and ninit[0] == n0 + 1 and ser == ninit[0], "new-key-returned-old-instance", f"{where}: argument {aa}: __init__ ran {ninit[0] - n0} times, serial {ser}")
+                    model[c][k] = (ser, (aa, {}))
+            classes.add("260-mappings-at-once")
+            mutated_since = True
         elif op == "add":
             entries = [(c, k) for c in CL for k in model[c]]
             if not entries:
